@@ -617,6 +617,7 @@ class Node:
             topnodes = child._root.children.copy()
             if before is not None and before is not False:
                 topnodes.reverse()
+            self._check_copies(topnodes, deep)
             node = None
             for n in topnodes:
                 node = self.add_child(n, before=before, deep=deep)
@@ -684,6 +685,20 @@ class Node:
 
     #: Alias for :meth:`add_child`
     add = add_child
+
+    def _check_copies(self, source_nodes: list[Node], deep: Optional[bool]) -> None:
+        """Raise if one of `source_nodes` cannot be copied below this node.
+
+        Called before the first of several copies is made, so a refusal does
+        not leave some of them behind.
+        """
+        child_ids = {n._data_id for n in self.children}
+        for n in source_nodes:
+            if n._data_id in child_ids:
+                raise UniqueConstraintError("Node.data already exists in parent")
+        for n in source_nodes:
+            if deep and (self is n or self.is_descendant_of(n)):
+                raise ValueError(f"Cannot copy {n} into its own branch")
 
     def append_child(
         self,
@@ -876,6 +891,8 @@ class Node:
         assert before is None
         if not self._children:
             raise ValueError("Need child nodes when `add_self=False`")
+        target_node = target if isinstance(target, Node) else target._root
+        target_node._check_copies(self._children, deep)
         res = None
         for child in self.children:
             n = target.add_child(child, before=None, deep=deep)
